@@ -348,7 +348,7 @@ def check(ctx, run):
         ok = bool(facts)
         for f in facts:
             names = [e["name"] for e in f["regs"]]
-            gens = [e for e in f["path"]["events"] if e["kind"] == "call" and ".stochastic." in e["callee"] and e["fn"] == sim.qualname]
+            gens = [e for e in f["path"]["events"] if e["kind"] == "call" and ".stochastic." in e["callee"] and ".stochastic." not in e["fn"]]   # calls INTO the generator package, from simulate or a hook of it
             ok = ok and names == want and len(gens) == 1
         run.oblige("C11.R5", f"{short}.simulate registers {want} from one generator call", ok, "")
         if not ok:
